@@ -39,12 +39,13 @@ PngDims == { <<1, 2>>, <<15, 16>>, <<65536, 3>>, <<2147483647, 1>>, <<7, 2147483
              <<16777216, 255>> }
 PngIhdrs == { Ihdr(d[1], d[2], 8, 2, 0) : d \in PngDims } \cup
             { Ihdr(15, 16, m[2], m[1], il) : m \in PngModes, il \in {0, 1} }
-OkZ == {"ok0", "ok6", "ok9"}
+OkZ == {"ok0", "ok6", "ok9", "fixed"}
 PngIccps ==
     { Iccp(1, 0, "ok6", p, p >= 3) : p \in 1..7 } \cup
     { Iccp(79, 0, z, 2, FALSE) : z \in {"ok0", "ok9"} } \cup
     { Iccp(5, 0, "ok6", 2, TRUE) } \cup     \* small profile placed across a window boundary
     { Iccp(5, 0, z, 2, FALSE) : z \in {"trunc", "badhdr", "badsum"} } \cup
+    { Iccp(5, 0, "fixed", 1, FALSE), Iccp(1, 0, "fixed", 1, FALSE) } \cup   \* one final fixed-Huffman block: the shortest legal stream (other encoders emit it)
     { Iccp(5, 0, z, p, TRUE) : z \in {"trunc", "badhdr", "badsum", "badblock"}, p \in {4, 6} } \cup   \* damage in large streams
     { Iccp(80, 0, "ok6", 2, FALSE), Iccp(5, 1, "ok6", 2, FALSE) }
 AncSlots == { <<>>, <<Anc("small")>>, <<Anc("big")>>, <<Anc("small"), Anc("big")>> }
@@ -159,7 +160,8 @@ WebpFiles ==
                 <<FALSE, TRUE, TRUE, FALSE>>, <<TRUE, TRUE, FALSE, TRUE>> }, d \in Dims24,
         nx \in { <<>>, <<OtherW("EXIF")>> } \cup { <<IccpW(p, p >= 3)>> : p \in 1..6 } \cup
                { <<IccpW(2, FALSE), OtherW("EXIF")>> } } \cup
-    { <<Vp8x(<<TRUE, FALSE, FALSE, FALSE>>, 64, 63)>> }          \* flag set, file ends
+    { <<Vp8x(<<TRUE, FALSE, FALSE, FALSE>>, 64, 63)>> } \cup       \* flag set, file ends
+    { <<Vp8x(<<TRUE, FALSE, FALSE, FALSE>>, 64, 63), IccpW(p, FALSE)>> : p \in {1, 2, 3} }   \* the profile is the last chunk of the container
 
 WebpAllowed(f) ==
     LET c == f[1] IN
